@@ -7,8 +7,13 @@
     * `JStable` untyped content — number / timestamp re-typing by the text codec (C09_textcodec_partial,
       explored by correspondence only);
     * no explicitly empty `label`/`key` next to an alias (recorded finding F14);
-    * no adjustment `skip` that JSON's omitempty drops (recorded finding F11);
-    * nothing else written next to `cache: {disabled: true}` (such a cache is written as `false`).
+    * no adjustment `skip` that JSON's omitempty drops (recorded finding F11).
+  Not a side condition any more: settings written next to `cache: {disabled: true}`. Finding F18
+  (`(*Cache).MarshalJSON` wrote every disabled cache as `false`, dropping name / paths / size / extra
+  keys written next to `disabled: true`) was fixed in the code (commit e8ce0ad): only a cache that is
+  nothing but disabled is written as `false`, any other disabled cache as an object holding
+  `"disabled": true` next to its settings. The condition was removed from `StableCommand` and from
+  `C09_cache_roundtrip`, which now hold for every parsed cache.
   Not a side condition any more: plugin sources. The marshaller writes `FullSource()`, so the re-parsed
   step holds the canonical source, and comparing normal forms canonicalises it once more. Finding F17
   (`path.Join` in `FullSource`: `plugins: ["x/y#a/../.."]` was written as `github.com`, whose own
@@ -48,7 +53,7 @@ theorem C09_matrix_roundtrip (v : Val) (m : Matrix) (hv : NoUMap v) (h : parseMa
     ∃ m', parseMatrix (rereadJ (mMatrix m)) = .ok (some m') ∧ normMatrix m' = normMatrix m := matrix_roundtrip v m hv h hs
 
 theorem C09_cache_roundtrip (v : Val) (c : Cache) (hv : NoUMap v) (h : parseCache v = .ok (some c))
-    (hs : StableUMap c.rem ∧ (c.disabled = true → c.name = "" ∧ (c.paths.getD []) = [] ∧ c.size = "" ∧ (c.rem.getD []) = [])) :
+    (hs : StableUMap c.rem) :
     ∃ c', parseCache (rereadJ (mCache c)) = .ok (some c') ∧ normCache c' = normCache c := cache_roundtrip v c hv h hs
 
 theorem C09_signature_roundtrip (s : Signature) :
